@@ -11,7 +11,9 @@
 (* (the code has none: results are matched by repository and peer id).      *)
 (*                                                                         *)
 (* Actions = the service's entry points:                                    *)
-(*   Connect(p) / Disconnect(p)   Service::connected / disconnected          *)
+(*   Attempt(p) / Connect(p) / Disconnect(p) / Retry(p)                       *)
+(*                                Service::attempted / connected /            *)
+(*                                disconnected / maintain_persistent          *)
 (*   FetchCmd(r, p), AnnFetch     Command::Fetch / inventory announcement     *)
 (*   TaskDone(g)                  worker result -> Wire gate -> fetched()    *)
 (*   Idle                         wake(): dequeue_fetches                    *)
@@ -27,6 +29,7 @@
 EXTENDS Integers, FiniteSets, Sequences, TLC
 
 CONSTANTS Peer, Repo,
+          Persistent,    \* peers we dial ourselves and keep a session for while disconnected
           Capacity,      \* limits.fetch_concurrency
           QueueMax,      \* MAX_FETCH_QUEUE_SIZE
           MaxTasks,      \* bound: number of Io::Fetch emitted
@@ -34,7 +37,8 @@ CONSTANTS Peer, Repo,
           Dev
 
 VARIABLES
-    conn,       \* connected peers (sessions exist exactly for these)
+    st,         \* [Peer -> session state]: "none" (no session), "initial", "attempted",
+                \* "connected", "disconnected" (session::State)
     sfetch,     \* [Peer -> SUBSET Repo]   per-session fetching set
     queue,      \* [Peer -> Seq(Repo)]     per-session fetch queue
     fetching,   \* [Repo -> 0 | [from, gid]]  Service::fetching (gid is ghost)
@@ -43,13 +47,18 @@ VARIABLES
     applied,    \* ghost: last step applied result of task g to the entry of task h: <<g, h>> or <<>>
     hist
 
-vars == <<conn, sfetch, queue, fetching, tasks, live, applied, hist>>
-view == <<conn, sfetch, queue, fetching, tasks, live, applied>>
+vars == <<st, sfetch, queue, fetching, tasks, live, applied, hist>>
+view == <<st, sfetch, queue, fetching, tasks, live, applied>>
+
+conn == {p \in Peer : st[p] = "connected"}      \* connected sessions
+sessions == {p \in Peer : st[p] # "none"}       \* peers that have a session at all
 
 NoFetch == [from |-> 0, gid |-> 0]
 
 Init ==
-    /\ conn = {} /\ sfetch = [p \in Peer |-> {}] /\ queue = [p \in Peer |-> <<>>]
+    \* initialize() dials the configured (persistent) peers
+    /\ st = [p \in Peer |-> IF p \in Persistent THEN "initial" ELSE "none"]
+    /\ sfetch = [p \in Peer |-> {}] /\ queue = [p \in Peer |-> <<>>]
     /\ fetching = [r \in Repo |-> NoFetch] /\ tasks = <<>> /\ live = {} /\ applied = <<>> /\ hist = <<>>
 
 Log(op) == Len(hist) < MaxOps /\ hist' = Append(hist, op)
@@ -66,12 +75,15 @@ QueueFetch(s, r, p, ch) ==
     IF Len(s.queue[p]) >= QueueMax \/ (~ch /\ InSeq([repo |-> r, ch |-> FALSE], s.queue[p])) THEN s
     ELSE [s EXCEPT !.queue[p] = Append(@, [repo |-> r, ch |-> ch])]
 
-\* _fetch(r, p): try_fetch, else queue
-Fetch(s, c, r, p, ch) ==
-    IF p \notin c THEN s                                        \* SessionNotConnected
+\* _fetch(r, p): try_fetch, else queue.  c = connected peers, ss = peers with a session.
+\* Order of the checks as in try_fetch: session exists; repository already being fetched
+\* (redundant / queue -- also on a session that is not connected); session connected; capacity.
+Fetch(s, c, ss, r, p, ch) ==
+    IF p \notin ss THEN s                                       \* SessionNotConnected (no session)
     ELSE IF s.fetching[r] # NoFetch THEN                        \* AlreadyFetching
         IF s.fetching[r].from = p THEN s                        \* redundant: same peer, same refs
         ELSE QueueFetch(s, r, p, ch)
+    ELSE IF p \notin c THEN s                                   \* SessionNotConnected
     ELSE IF Cardinality(s.sfetch[p]) >= Capacity THEN QueueFetch(s, r, p, ch)
     ELSE LET g == Len(s.tasks) + 1 IN
          [s EXCEPT !.fetching[r] = [from |-> p, gid |-> g],
@@ -80,15 +92,15 @@ Fetch(s, c, r, p, ch) ==
                    !.live = @ \cup {g}]
 
 \* dequeue_fetches: once per session, in the given order
-RECURSIVE Dequeue(_, _, _)
-Dequeue(s, c, order) ==
+RECURSIVE Dequeue(_, _, _, _)
+Dequeue(s, c, ss, order) ==
     IF order = <<>> THEN s
     ELSE LET p == Head(order) IN
          IF p \notin c \/ Cardinality(s.sfetch[p]) >= Capacity \/ s.queue[p] = <<>>
-         THEN Dequeue(s, c, Tail(order))
+         THEN Dequeue(s, c, ss, Tail(order))
          ELSE LET q == Head(s.queue[p])
                   s1 == [s EXCEPT !.queue[p] = Tail(@)]
-              IN Dequeue(Fetch(s1, c, q.repo, p, q.ch), c, Tail(order))
+              IN Dequeue(Fetch(s1, c, ss, q.repo, p, q.ch), c, ss, Tail(order))
 
 Perms(S) == {q \in [1..Cardinality(S) -> S] : \A i, j \in 1..Cardinality(S) : i # j => q[i] # q[j]}
 
@@ -97,43 +109,65 @@ Set(s) == /\ sfetch' = s.sfetch /\ queue' = s.queue /\ fetching' = s.fetching
           /\ tasks' = s.tasks /\ live' = s.live
 
 -----------------------------------------------------------------------------
-Connect(p) ==
-    /\ p \notin conn
-    /\ conn' = conn \cup {p}
+\* Service::attempted: our dial reached the peer
+Attempt(p) ==
+    /\ st[p] = "initial"
+    /\ st' = [st EXCEPT ![p] = "attempted"]
     /\ applied' = <<>>
-    /\ Log(<<"connect", p>>)
+    /\ Log(<<"attempted", p>>)
     /\ UNCHANGED <<sfetch, queue, fetching, tasks, live>>
 
-\* disconnected(): fetching.retain(from # p); the session (its fetching set and queue) is dropped;
-\* the worker's tasks for p are not cancelled by the service; then dequeue_fetches.
+\* Service::connected: an inbound connection (no session, or any existing session), or our own
+\* dial completing.  to_connected() starts a fresh Connected state (empty fetching set); the
+\* session's queue survives.
+Connect(p) ==
+    /\ st[p] # "connected"
+    /\ st' = [st EXCEPT ![p] = "connected"]
+    /\ sfetch' = [sfetch EXCEPT ![p] = {}]
+    /\ applied' = <<>>
+    /\ Log(<<"connect", p>>)
+    /\ UNCHANGED <<queue, fetching, tasks, live>>
+
+\* disconnected(): fetching.retain(from # p); a persistent peer's session is kept in the
+\* Disconnected state (with its queue), any other session is dropped; the worker's tasks for p
+\* are not cancelled by the service; then dequeue_fetches.
 Disconnect(p) ==
-    /\ p \in conn
-    /\ conn' = conn \ {p}
+    /\ st[p] = "connected"
+    /\ st' = [st EXCEPT ![p] = IF p \in Persistent THEN "disconnected" ELSE "none"]
     /\ applied' = <<>>
     /\ \E order \in Perms(conn \ {p}) :
          LET s0 == [St EXCEPT !.fetching = [r \in Repo |-> IF @[r].from = p THEN NoFetch ELSE @[r]],
-                              !.sfetch[p] = {}, !.queue[p] = <<>>,
+                              !.sfetch[p] = {},
+                              !.queue[p] = IF p \in Persistent THEN @ ELSE <<>>,
                               !.live = {g \in @ : tasks[g].peer # p}]
-         IN Set(Dequeue(s0, conn \ {p}, order))
+         IN Set(Dequeue(s0, conn \ {p}, {q \in Peer : st'[q] # "none"}, order))
     /\ Log(<<"disconnect", p>>)
+
+\* maintain_persistent: time to dial a disconnected persistent peer again
+Retry(p) ==
+    /\ st[p] = "disconnected"
+    /\ st' = [st EXCEPT ![p] = "initial"]
+    /\ applied' = <<>>
+    /\ Log(<<"wake", 70000>>)
+    /\ UNCHANGED <<sfetch, queue, fetching, tasks, live>>
 
 \* Command::Fetch (carries a result channel)
 FetchCmd(r, p) ==
     /\ Len(tasks) < MaxTasks
-    /\ Set(Fetch(St, conn, r, p, TRUE))
+    /\ Set(Fetch(St, conn, sessions, r, p, TRUE))
     /\ applied' = <<>>
     /\ Log(<<"fetch", r, p>>)
-    /\ UNCHANGED conn
+    /\ UNCHANGED st
 
 \* a fetch triggered by an inventory announcement of connected peer p listing a seeded repository
 \* we do not have (no result channel)
 AnnFetch(r, p) ==
     /\ Len(tasks) < MaxTasks
     /\ p \in conn
-    /\ Set(Fetch(St, conn, r, p, FALSE))
+    /\ Set(Fetch(St, conn, sessions, r, p, FALSE))
     /\ applied' = <<>>
     /\ Log(<<"annfetch", r, p>>)
-    /\ UNCHANGED conn
+    /\ UNCHANGED st
 
 \* A worker finishes task g.  Wire::worker_result forwards the result to the service only if a
 \* peer with that node id is connected; Service::fetched then matches it by repository (and, since
@@ -157,22 +191,22 @@ TaskDone(g) ==
                                       !.fetching[r] = NoFetch,
                                       !.sfetch[p] = @ \ {r},
                                       !.live = @ \ {g}]
-                 IN Set(Dequeue(s0, conn, order))
+                 IN Set(Dequeue(s0, conn, sessions, order))
        ELSE /\ applied' = <<>>
             /\ tasks' = t1
             /\ live' = live \ {g}
             /\ UNCHANGED <<sfetch, queue, fetching>>
     /\ Log(<<"done", g>>)
-    /\ UNCHANGED conn
+    /\ UNCHANGED st
 
 Idle ==
-    /\ \E order \in Perms(conn) : Set(Dequeue(St, conn, order))
+    /\ \E order \in Perms(conn) : Set(Dequeue(St, conn, sessions, order))
     /\ applied' = <<>>
     /\ Log(<<"idle">>)
-    /\ UNCHANGED conn
+    /\ UNCHANGED st
 
 Next ==
-    \/ \E p \in Peer : Connect(p) \/ Disconnect(p)
+    \/ \E p \in Peer : Attempt(p) \/ Connect(p) \/ Disconnect(p) \/ Retry(p)
     \/ \E r \in Repo, p \in Peer : FetchCmd(r, p) \/ AnnFetch(r, p)
     \/ \E g \in DOMAIN tasks : TaskDone(g)
     \/ Idle
